@@ -521,7 +521,7 @@ func (ex *Exec) mapGet(fr *Frame, m *MapObj, key Value) (Value, bool) {
 func (ex *Exec) lookup(fr *Frame, ins *ssa.Lookup) Value {
 	x := ex.val(fr, ins.X)
 	if s, ok := x.(StrV); ok { // string index
-		return ex.strIndex(fr, s, ex.val(fr, ins.Index).(*Term), ins.Pos())
+		return ex.strIndex(fr, s, bvResize(ex.val(fr, ins.Index).(*Term), 64, isSigned(ins.Index.Type())), ins.Pos())
 	}
 	m := x.(*MapObj)
 	key := ex.val(fr, ins.Index)
